@@ -76,9 +76,19 @@ func c34() {
 			for _, fam := range families {
 				c34DKG(run, t, n, fam, msgs)
 			}
-			c34Threshold(run, t, n, msgs)
+			c34Threshold(run, t, n, msgs, false)
 		}
 		c34Split(run, n, msgs)
+	}
+	// many shares: share indices >= 10 and >= 16 (where decimal, hex and longer id strings differ),
+	// every t-subset, reconstructed both from the share objects and through the id-string path
+	large := [][2]int{{2, 11}, {3, 17}}
+	if run.Thorough() {
+		large = [][2]int{{2, 11}, {2, 17}, {3, 17}, {4, 12}, {4, 17}}
+	}
+	run.Bounds["many_shares_(t,n)"] = large
+	for _, tn := range large {
+		c34Threshold(run, tn[0], tn[1], msgs, true)
 	}
 	run.Assumptions = []string{
 		"party ids are distinct in their first 31 hex digits (ComputeIDdkg uses only those); ids that collide there are outside the alphabet",
@@ -363,9 +373,19 @@ func c34SOS(run *ev.Run, t, n int, fam string, ids []string, pids []tbls.PartyID
 }
 
 // c34Threshold: client threshold keys (core/encryption).
-func c34Threshold(run *ev.Run, t, n int, msgs []string) {
+//
+// large: n >= 10; every t-subset in ascending and descending order (instead of all t! orders), one key.
+// In both modes every reconstruction is also done through the id-string path that
+// smartcontract/multisigsc constructTransferSignature uses: a fresh threshold scheme gets
+// SetPublicKey(share public key) and SetID(share.GetID()) and is then handed to rec.Add.
+func c34Threshold(run *ev.Run, t, n int, msgs []string, large bool) {
 	tag := fmt.Sprintf("t=%d n=%d", t, n)
-	for ki := 0; ki < 2; ki++ {
+	nKeys := 2
+	if large {
+		nKeys = 1
+	}
+	vmemo := map[string]string{}
+	for ki := 0; ki < nKeys; ki++ {
 		orig := detKey(blsScheme, ki)
 		rep := func(extra map[string]any) map[string]any {
 			m := map[string]any{"part": "threshold-client-key", "t": t, "n": n, "original_key": orig}
@@ -380,8 +400,38 @@ func c34Threshold(run *ev.Run, t, n int, msgs []string) {
 			run.Violation("C34:BLS0GenerateThresholdKeyShares:error", fmt.Sprintf("%s: %v (%d shares)", tag, err, len(shares)), rep(nil))
 			continue
 		}
+		// direct oracle: the id of every share survives the string round trip SetID(GetID())
+		for i, sh := range shares {
+			tss := encryption.GetThresholdSignatureScheme(blsScheme)
+			id := sh.GetID()
+			err := tss.SetID(id)
+			run.Add(0, 0, 1)
+			back := ""
+			if err == nil {
+				back = tss.GetID()
+			}
+			cls := "index<10"
+			if i+1 >= 16 {
+				cls = "index>=16"
+			} else if i+1 >= 10 {
+				cls = "index>=10"
+			}
+			run.Outcome(fmt.Sprintf("threshold/id-round-trip/%s/%v", cls, err == nil && back == id))
+			if err != nil || back != id {
+				run.Violation("C34:BLS0ChainThresholdScheme:id-string-round-trip", fmt.Sprintf("%s: share #%d: GetID()=%q, SetID(that) then GetID()=%q (err %v)", tag, i+1, id, back, err), rep(map[string]any{"share_index": i + 1, "id": id, "after_round_trip": back}))
+			}
+		}
 		for _, m := range msgs {
 			want, _ := signer(orig).Sign(m)
+			verify := func(sig string) string {
+				k := orig.Pub + "|" + sig + "|" + m
+				if r, ok := vmemo[k]; ok {
+					return r
+				}
+				r := verifyWith(blsScheme, orig.Pub, sig, m)
+				vmemo[k] = r
+				return r
+			}
 			sigs := make([]string, n)
 			for i, sh := range shares {
 				sigs[i], err = sh.Sign(m)
@@ -409,11 +459,70 @@ func c34Threshold(run *ev.Run, t, n int, msgs []string) {
 				}
 				return rec.Reconstruct()
 			}
+			// the multisig smart contract's path: ids and public keys travel as strings
+			reconstructViaIDs := func(order []int) (string, error) {
+				rec := encryption.GetReconstructSignatureScheme(blsScheme, t, n)
+				for _, p := range order {
+					tss := encryption.GetThresholdSignatureScheme(blsScheme)
+					if err := tss.SetPublicKey(shares[p].GetPublicKey()); err != nil {
+						return "", err
+					}
+					if err := tss.SetID(shares[p].GetID()); err != nil {
+						return "", err
+					}
+					if err := rec.Add(tss, sigs[p]); err != nil {
+						return "", err
+					}
+				}
+				return rec.Reconstruct()
+			}
+			perms := allPerms(t)
+			if large {
+				asc, desc := make([]int, t), make([]int, t)
+				for x := range asc {
+					asc[x], desc[x] = x, t-1-x
+				}
+				perms = [][]int{asc}
+				if t > 1 {
+					perms = append(perms, desc)
+				}
+			}
+			firstViaIDs, firstOrder := "", []int(nil)
 			for _, sub := range subsets(n, t) {
-				for _, perm := range allPerms(t) {
+				for _, perm := range perms {
 					order := make([]int, t)
 					for x, p := range perm {
 						order[x] = sub[p]
+					}
+					hi := "indices<10"
+					for _, p := range order {
+						if p+1 >= 16 {
+							hi = "has-index>=16"
+						} else if p+1 >= 10 && hi == "indices<10" {
+							hi = "has-index>=10"
+						}
+					}
+					vid, verr := reconstructViaIDs(order)
+					run.Add(0, 1, 1)
+					if verr != nil {
+						run.Outcome("threshold/reconstruct-via-id-strings/" + hi + "/error")
+						run.Violation("C34:BLS0ChainReconstruction:id-string-path:error", fmt.Sprintf("%s shares %v (1-based %v): %v", tag, order, plus1(order), verr), rep(map[string]any{"order": order, "message": m}))
+					} else {
+						vres := verify(vid)
+						if firstViaIDs == "" {
+							firstViaIDs, firstOrder = vid, order
+						}
+						run.Outcome(fmt.Sprintf("threshold/reconstruct-via-id-strings/%s/%s/same-as-other-subsets=%v", hi, vres, vid == firstViaIDs))
+						if vres != "ok" {
+							run.Violation("C34:BLS0ChainReconstruction:id-string-path:does-not-verify-under-original-key",
+								fmt.Sprintf("%s: shares #%v reconstructed through SetID(GetID()) give a signature that does not verify under the original key (%s)", tag, plus1(order), vres),
+								rep(map[string]any{"order": order, "message": m, "reconstructed": vid}))
+						}
+						if vid != firstViaIDs {
+							run.Violation("C34:BLS0ChainReconstruction:id-string-path:subsets-disagree",
+								fmt.Sprintf("%s: shares #%v reconstruct %s..., shares #%v reconstructed %s...", tag, plus1(order), vid[:16], plus1(firstOrder), firstViaIDs[:16]),
+								rep(map[string]any{"order": order, "first": firstOrder, "message": m}))
+						}
 					}
 					got, err := reconstruct(order, false)
 					run.Add(0, 1, 1)
@@ -422,7 +531,7 @@ func c34Threshold(run *ev.Run, t, n int, msgs []string) {
 						run.Violation("C34:BLS0ChainReconstruction:error", fmt.Sprintf("%s order %v: %v", tag, order, err), rep(map[string]any{"order": order, "message": m}))
 						continue
 					}
-					res := verifyWith(blsScheme, orig.Pub, got, m)
+					res := verify(got)
 					run.Outcome(fmt.Sprintf("threshold/reconstruct/%s/equals-direct=%v", res, got == want))
 					if res != "ok" {
 						run.Violation("C34:BLS0ChainReconstruction:does-not-verify-under-original-key", fmt.Sprintf("%s: shares %v reconstruct a signature that does not verify under the original key (%s)", tag, order, res), rep(map[string]any{"order": order, "message": m, "reconstructed": got}))
@@ -514,4 +623,12 @@ func c34Split(run *ev.Run, k int, msgs []string) {
 			}
 		}
 	}
+}
+
+func plus1(a []int) []int {
+	out := make([]int, len(a))
+	for i, x := range a {
+		out[i] = x + 1
+	}
+	return out
 }
